@@ -49,13 +49,13 @@ theorem C38_terminates_clamped : C38_terminates true := by
 /-! ### what one aggregate of one output chunk conserves -/
 
 /-- **genericAggregate conserves the totals of its input samples.**  `buf` is what was expanded
-    from the sub-chunks of one aggregate (timestamps ≥ 0, the last one the largest, finite values):
+    from the sub-chunks of one aggregate (timestamps above MinInt64, the last one the largest, finite values):
     the emitted samples' Σ of window sums is Σ buf (used for the sum aggregate and, over count
     samples, for the count aggregate), the least window minimum is min buf, the greatest window
     maximum is max buf, and the emitted timestamps strictly increase inside [first, last] of buf. -/
 theorem C38_batch_totals (r : Int) (hr : 0 < r) (buf : List Pt) (t0 v0 lastT lv : Int)
     (hhead : buf.head? = some (t0, v0)) (hlast : buf.getLast? = some (lastT, lv))
-    (hb : ∀ p ∈ buf, 0 ≤ p.1 ∧ p.1 ≤ lastT) (hfin : ∀ p ∈ buf, Finite p.2) :
+    (hb : ∀ p ∈ buf, minInt64 < p.1 ∧ p.1 ≤ lastT) (hfin : ∀ p ∈ buf, Finite p.2) :
     ∃ out nt, downsampleBatch buf r = some (out, nt) ∧ out ≠ [] ∧
       (out.map (fun e => e.2.sum)).sum = (buf.map (·.2)).sum ∧
       (out.map (fun e => e.2.min)).min? = (buf.map (·.2)).min? ∧
@@ -123,9 +123,9 @@ theorem C38_from_raw (r1 r2 : Int) (h1 : 0 < r1) (h2 : 0 < r2) (data : List Raw)
       ((l2.flatMap (·.min)).map (·.2)).min? = ((dropNaN data).map (·.2)).min? ∧
       ((l2.flatMap (·.max)).map (·.2)).max? = ((dropNaN data).map (·.2)).max? := by
   obtain ⟨l1, e1, hwf⟩ := C36_wellformed r1 h1 data nc1 hn1 ok
-  obtain ⟨l1', e1', t1, t2⟩ := C36_totals r1 h1 data nc1 hn1 ok
+  obtain ⟨l1', e1', t1, t2⟩ := C36_totals r1 h1 data nc1 hn1 ok.toIn
   rw [e1] at e1'; cases e1'
-  obtain ⟨l1'', e1'', t3, t4⟩ := C36_minmax r1 h1 data nc1 hn1 ok
+  obtain ⟨l1'', e1'', t3, t4⟩ := C36_minmax r1 h1 data nc1 hn1 ok.toIn
   rw [e1] at e1''; cases e1''
   obtain ⟨l2, e2, hh⟩ := C38_conserves r2 h2 l1 nc2 hn2 hwf
   exact ⟨l1, l2, e1, e2, hh, hh.count.trans t1, hh.sum.trans t2, hh.min.trans t3, hh.max.trans t4⟩
